@@ -457,6 +457,23 @@ func (e *Enc) atReturn(fr *Frame, x *ssa.Return, vs []Val) {
 	}
 	results, resNames := e.resultTVs(fr.fn, vs)
 	ctx := &ExprCtx{e: e, fr: fr, st: fr.curState, old: e.entry, results: results, resNames: resNames, fc: e.fc}
+	// "site return * [nth K]: domain E": E is ASSUMED about the returned values (a stated restriction of the
+	// domain, listed in the evidence); the postconditions and the other return sites are proved under it
+	for i := range e.fc.Sites {
+		st := &e.fc.Sites[i]
+		if st.Kind != "return" || !st.Assume || st.Target != "*" {
+			continue
+		}
+		if st.Nth >= 0 && returnOrdinal(fr.fn, x) != st.Nth {
+			continue
+		}
+		sctx := &ExprCtx{e: e, fr: fr, st: fr.curState, old: e.entry, results: results, resNames: resNames, block: fr.curB, idx: fr.curI, fc: e.fc, lenient: true}
+		e.siteHits[st]++
+		g := e.safeBool(sctx, st.Assert, "site "+e.siteLabel(st))
+		e.note("DOMAIN ASSUMED at " + e.siteLabel(st) + " in " + shortFnName(fr.fn) + ": " + st.Assert.Text)
+		fr.curReach = e.s.Define("reach:domain", And(fr.curReach, g))
+		e.addCover("site:"+e.siteLabel(st), fr.curReach, "domain restriction is satisfiable at the return")
+	}
 	// in ensures clauses parameter names denote entry values: no block context for locals
 	for i, en := range e.fc.Ensures {
 		g := e.safeBool(ctx, en, "ensures")
@@ -480,7 +497,7 @@ func (e *Enc) atReturn(fr *Frame, x *ssa.Return, vs []Val) {
 	isNil, hasNil := e.nilnessResult(fr.fn, results)
 	for i := range e.fc.Sites {
 		st := &e.fc.Sites[i]
-		if st.Kind != "return" {
+		if st.Kind != "return" || st.Assume {
 			continue
 		}
 		cond := fr.curReach
